@@ -59,11 +59,11 @@ CLAIMED = {
             "Exhaustive: the four directories with checked-in generated code are regenerated with the generator built from the working tree and compared byte for byte; the checked-in tables additionally pass the Lean validators against the grammar/rules in the same directory.",
             "Finite statement about the working tree; Lean validators supply the semantic half.", "regeneration + byte comparison + Lean validators", "§7 C14"),
     "C15": ("proof",
-            "Lean theorems over the model of rang3 (Flatten/Subtract/Normalize, class evaluation, relabelling callbacks) for all lists of ranges; the model is tied to the Go functions by an exhaustive small-universe + boundary-sampling correspondence run on every check.",
+            "Lean theorems over the model of rang3 (Flatten/Subtract/Normalize, class evaluation, relabelling callbacks) for all lists of ranges, and over the model of parser.on_char_class (class_items_as_written: the AST items are the written items, an escaped dash is a character in every position; class_text_den); the models are tied to the Go functions by an exhaustive small-universe + boundary-sampling correspondence (rang3) and by class expressions generated as TEXT in every spelling and sent through the real front end (classtext), run on every check; the oracle replays the Normalize callbacks (every range = exact union of the pieces it is relabelled with).",
             TB + " int32-without-overflow reading of rune arithmetic.",
             "Lean 4 theorems (induction over range lists) + differential correspondence model↔Go", "§7 C15"),
     "C16": ("proof",
-            "erasure (presence of _onBounds changes nothing else), bounds_inv, on_bounds_calls for arbitrary tables, inputs and fuel over the model of parse(); the model's bounds log is compared with compiled parsers defining _onBounds on every run.",
+            "erasure (presence of _onBounds changes nothing else), bounds_inv, on_bounds_calls for arbitrary tables, inputs and fuel over the model of parse(); the model's bounds log is compared with compiled parsers defining _onBounds on every run; nil twins (the same grammar with interface-typed rules whose actions return nil) must produce the same _onBounds calls.",
             TB, "Lean 4 invariants over the parser runtime model + correspondence", "§7 C16"),
     "C17": ("proof",
             "analyze_nil_iff (the model of the four front-end passes accepts exactly the well-formed specifications, WellFormed written from the property text), diag_in_decl, single_fault (29 fault injectors at any position / file / mode), wellFormedB_decides. The model is compared with the real front end on random multi-file specifications and every injector (kind and line of each diagnostic).",
